@@ -31,7 +31,7 @@ theorem tabInv_of_tables {U : Universe} {s s' : St} (h : TabInv U s) (he : s'.en
   · rw [he]; exact h.entKeys
   · intro e; rw [hr]; exact h.rowKeys e
 
-theorem tabInv_sameTables {U : Universe} {s s' : St} (h : TabInv U s) (t : SameTables s s') :
+theorem tabInv_sameTables {U : Universe} {s s' : St} (h : TabInv U s) (t : SameTables U s s') :
     TabInv U s' := tabInv_of_tables h t.ents t.comps
 
 theorem row_eq_of_get? {s : St} {e : Ent} {r : Dict Ty Obj} (h : Dict.get? s.ents e = some r) :
@@ -309,14 +309,15 @@ theorem tabInv_process {U : Universe} {s : St} (h : TabInv U s) (dt : String) :
 
 theorem removeProcessor_ents (U : Universe) (s : St) (t : Ty) :
     (removeProcessor U s t).1.ents = s.ents ∧ (removeProcessor U s t).1.comps = s.comps ∧
-    (removeProcessor U s t).1.dead = s.dead ∧ (removeProcessor U s t).1.nextId = s.nextId := by
+    (U.Passive → (removeProcessor U s t).1.dead = s.dead) ∧ (removeProcessor U s t).1.nextId = s.nextId := by
   rcases removeProcessor_spec U s t with ⟨_, heq⟩ | ⟨st, p, _, _, _, hsame⟩
-  · rw [heq]; exact ⟨rfl, rfl, rfl, rfl⟩
+  · rw [heq]; exact ⟨rfl, rfl, fun _ => rfl, rfl⟩
   · exact ⟨hsame.ents, hsame.comps, hsame.dead, hsame.nextId⟩
 
 theorem addProcessor_ents (U : Universe) (s : St) (p : Obj) (prio? : Option Int) :
     (addProcessor U s p prio?).1.ents = s.ents ∧ (addProcessor U s p prio?).1.comps = s.comps ∧
-    (addProcessor U s p prio?).1.dead = s.dead ∧ (addProcessor U s p prio?).1.nextId = s.nextId := by
+    (U.Passive → (addProcessor U s p prio?).1.dead = s.dead) ∧
+    (addProcessor U s p prio?).1.nextId = s.nextId := by
   unfold addProcessor
   simp only
   have hsp : ∀ s1 : St, (setPrio s1 p prio?).ents = s1.ents ∧ (setPrio s1 p prio?).comps = s1.comps ∧
@@ -324,19 +325,20 @@ theorem addProcessor_ents (U : Universe) (s : St) (p : Obj) (prio? : Option Int)
     intro s1; cases prio? <;> exact ⟨rfl, rfl, rfl, rfl⟩
   split
   · rename_i s1 hx
-    have h1 : s1.ents = s.ents ∧ s1.comps = s.comps ∧ s1.dead = s.dead ∧ s1.nextId = s.nextId := by
+    have h1 : s1.ents = s.ents ∧ s1.comps = s.comps ∧ (U.Passive → s1.dead = s.dead) ∧
+        s1.nextId = s.nextId := by
       split at hx
       · simp only [Prod.mk.injEq] at hx
         rw [← hx.1]; exact removeProcessor_ents U s _
-      · simp only [Prod.mk.injEq] at hx; rw [← hx.1]; exact ⟨rfl, rfl, rfl, rfl⟩
+      · simp only [Prod.mk.injEq] at hx; rw [← hx.1]; exact ⟨rfl, rfl, fun _ => rfl, rfl⟩
     have h2 := attachEvents_tables U (insertProc U (setPrio s1 p prio?) p) p none
     obtain ⟨a, b, c, d⟩ := hsp s1
     exact ⟨h2.ents.trans (a.trans h1.1), h2.comps.trans (b.trans h1.2.1),
-      h2.dead.trans (c.trans h1.2.2.1), h2.nextId.trans (d.trans h1.2.2.2)⟩
+      fun hp => (h2.dead hp).trans (c.trans (h1.2.2.1 hp)), h2.nextId.trans (d.trans h1.2.2.2)⟩
   · rename_i r hne
     split
     · exact removeProcessor_ents U s _
-    · exact ⟨rfl, rfl, rfl, rfl⟩
+    · exact ⟨rfl, rfl, fun _ => rfl, rfl⟩
 
 theorem tabInv_deleteAll {U : Universe} {s : St} (h : TabInv U s) (es : List Ent) :
     TabInv U (deleteAll U s es).1 := by
